@@ -1500,9 +1500,18 @@ func (o *ovsdbClient) Get(ctx context.Context, model model.Model) error {
 	return primaryDB.api.Get(ctx, model)
 }
 
+// primaryAPI returns the model API of the primary database; Connect replaces
+// it (under the cache lock) when it creates a new cache after a disconnect
+func (o *ovsdbClient) primaryAPI() API {
+	db := o.primaryDB()
+	db.cacheMutex.RLock()
+	defer db.cacheMutex.RUnlock()
+	return db.api
+}
+
 // Create implements the API interface's Create function
 func (o *ovsdbClient) Create(models ...model.Model) ([]ovsdb.Operation, error) {
-	return o.primaryDB().api.Create(models...)
+	return o.primaryAPI().Create(models...)
 }
 
 // List implements the API interface's List function
@@ -1515,20 +1524,20 @@ func (o *ovsdbClient) List(ctx context.Context, result interface{}) error {
 
 // Where implements the API interface's Where function
 func (o *ovsdbClient) Where(models ...model.Model) ConditionalAPI {
-	return o.primaryDB().api.Where(models...)
+	return o.primaryAPI().Where(models...)
 }
 
 // WhereAny implements the API interface's WhereAny function
 func (o *ovsdbClient) WhereAny(m model.Model, conditions ...model.Condition) ConditionalAPI {
-	return o.primaryDB().api.WhereAny(m, conditions...)
+	return o.primaryAPI().WhereAny(m, conditions...)
 }
 
 // WhereAll implements the API interface's WhereAll function
 func (o *ovsdbClient) WhereAll(m model.Model, conditions ...model.Condition) ConditionalAPI {
-	return o.primaryDB().api.WhereAll(m, conditions...)
+	return o.primaryAPI().WhereAll(m, conditions...)
 }
 
 // WhereCache implements the API interface's WhereCache function
 func (o *ovsdbClient) WhereCache(predicate interface{}) ConditionalAPI {
-	return o.primaryDB().api.WhereCache(predicate)
+	return o.primaryAPI().WhereCache(predicate)
 }
